@@ -16,7 +16,7 @@
                                  breaks; integers fit an i64; route patterns and unquoted host names begin and end with a
                                  visible ASCII character; layout blanks are spaces and tabs; nesting < MAX_DEPTH)
      load                        the model of parse_conf followed by Config::from_tree (coq/theories/Config.v) *)
-From Hv Require Import Prelude Bytes Krauss TablesConfig Config ConfigProofs ConfigSpec ConfigRenderProofs ConfigSemProofs ConfigQuoteProofs.
+From Hv Require Import Prelude Bytes Krauss TablesConfig Config ConfigProofs ConfigSpec ConfigRenderProofs ConfigSemProofs ConfigQuoteProofs ConfigValidProofs.
 Open Scope N_scope.
 
 (* ---- a file that follows the syntax loads into exactly what it describes, for EVERY layout ---- *)
@@ -86,6 +86,67 @@ Theorem C15_defaults_pinned :
   default_lb_mode = [114;111;117;110;100;45;114;111;98;105;110] /\ min_threads = 1 /\
   nofile_address = default_address /\ nofile_port = default_port /\ nofile_threads = default_threads /\ nofile_log_level = 2.
 Proof. repeat split; reflexivity. Qed.
+
+(* "Every file that violates ... a validation rule is rejected": whatever Config::from_tree accepts has passed every one of
+   its validation steps - port a u16, threads a usize >= 1, timeout a u64, the blacklist file readable and every line an
+   address, blacklist mode / log level / console flag / cache size and time recognised, every host and route well formed -
+   and the accepted values are exactly the parsed ones (never accepted with a different meaning) *)
+Theorem C15_accepted_passed_every_validation :
+  forall ipp files tree c,
+  from_tree ipp files tree = ROk c ->
+  let m := flatten [] tree in
+  get_optional_parsed parse_u16 m key_port default_port = Some (cf_port c) /\
+  get_optional_parsed parse_usize m key_threads default_threads = Some (cf_threads c) /\
+  min_threads <= cf_threads c /\
+  (exists t, get_optional_parsed parse_u64 m key_timeout default_timeout = Some t /\
+             cf_timeout c = if 0 <? t then Some t else None) /\
+  load_blacklist ipp files (get_owned m key_blacklist_file) = ROk (cf_bl_list c) /\
+  assoc_b (get_optional m key_blacklist_mode default_blacklist_mode) blacklist_mode_table = Some (cf_bl_mode c) /\
+  get_optional_parsed parse_log_level m key_log_level default_log_level = Some (cf_log_level c) /\
+  get_optional_parsed parse_bool m key_log_console default_log_console = Some (cf_log_console c) /\
+  get_optional_parsed parse_usize m key_cache_size default_cache_size = Some (cf_cache_size c) /\
+  get_optional_parsed parse_usize m key_cache_time default_cache_time = Some (cf_cache_time c) /\
+  parse_host default_host_matches tree = ROk (cf_default_host c) /\
+  collect (fun hn => parse_host (fst hn) (snd hn)) (hosts_of tree) = ROk (cf_hosts c).
+Proof. exact from_tree_accepts_only_valid. Qed.
+
+(* rule by rule: a tree that fails any validation step is not accepted *)
+Theorem C15_validation_failure_rejected :
+  forall ipp files tree,
+  let m := flatten [] tree in
+  (get_optional_parsed parse_u16 m key_port default_port = None \/
+   get_optional_parsed parse_usize m key_threads default_threads = None \/
+   (exists t, get_optional_parsed parse_usize m key_threads default_threads = Some t /\ t < min_threads) \/
+   get_optional_parsed parse_u64 m key_timeout default_timeout = None \/
+   (forall bl, load_blacklist ipp files (get_owned m key_blacklist_file) <> ROk bl) \/
+   assoc_b (get_optional m key_blacklist_mode default_blacklist_mode) blacklist_mode_table = None \/
+   get_optional_parsed parse_log_level m key_log_level default_log_level = None \/
+   get_optional_parsed parse_bool m key_log_console default_log_console = None \/
+   get_optional_parsed parse_usize m key_cache_size default_cache_size = None \/
+   get_optional_parsed parse_usize m key_cache_time default_cache_time = None \/
+   (forall h, parse_host default_host_matches tree <> ROk h) \/
+   (forall hs, collect (fun hn => parse_host (fst hn) (snd hn)) (hosts_of tree) <> ROk hs)) ->
+  forall c, from_tree ipp files tree <> ROk c.
+Proof. exact from_tree_rejects. Qed.
+
+(* a route is accepted only with a target (file / directory / redirect path, proxy targets with a recognised load-balancer
+   mode, or a websocket target), and an accepted blacklist file consists of addresses only *)
+Theorem C15_route_needs_target :
+  forall conf wild rt,
+  route_for conf wild = ROk rt ->
+  rt_matches rt = wild /\
+  ((rt_type rt = RT_File /\ rt_path rt <> None) \/ (rt_type rt = RT_Directory /\ rt_path rt <> None) \/
+   (rt_type rt = RT_Redirect /\ rt_path rt <> None) \/
+   (rt_type rt = RT_Proxy /\ exists targets mode, rt_lb rt = Some (targets, mode) /\
+      assoc_b (get_optional conf rkey_lb_mode default_lb_mode) lb_mode_table = Some mode) \/
+   (rt_type rt = RT_ExclusiveWebSocket /\ map_has conf rkey_websocket = true)).
+Proof. exact route_for_accepts_only_with_target. Qed.
+
+Theorem C15_blacklist_only_addresses :
+  forall ipp files p bl,
+  load_blacklist ipp files (Some p) = ROk bl ->
+  exists b, files p = FData b /\ utf8_valid b = true /\ Forall (fun l => ipp l <> None) (lines b).
+Proof. exact blacklist_accepts_only_addresses. Qed.
 
 (* independent of what else is configured; hosts and routes in file order *)
 Theorem C15_independent_of_other_keys :
@@ -287,6 +348,10 @@ Example C15_example_loads :
   end.
 Proof. vm_compute. repeat split. Qed.
 
+Print Assumptions C15_accepted_passed_every_validation.
+Print Assumptions C15_validation_failure_rejected.
+Print Assumptions C15_route_needs_target.
+Print Assumptions C15_blacklist_only_addresses.
 Print Assumptions C15_defaults_pinned.
 Print Assumptions C15_load_render.
 Print Assumptions C15_parse_render.
